@@ -514,7 +514,23 @@ func Enumerate() []*Scen {
 			out = append(out, &Scen{Target: target, Stdin: sim.Bytes(in), Chunks: chunks, Note: "enumeration: stdin in several writes", Files: []File{{Name: "p.json", State: StFile, Content: sim.Bytes(chainPatch(0)), Note: "valid"}}, Args: []Arg{{File: 0}}})
 			out = append(out, &Scen{Target: target, Stdin: sim.Bytes(in), Chunks: chunks, Note: "enumeration: stdin in several writes, no patches"})
 		}
-		for _, in := range []string{"", " ", "null", "[]", "{", chainDoc[:10], "7", `"s"`} {
+		// exit-status arithmetic: 255, 256, 257 and 512 undecodable patch files; 256 applicable ones
+		for _, nbad := range []int{255, 256, 257, 512} {
+			s := &Scen{Target: target, Stdin: sim.Bytes(chainDoc), Note: fmt.Sprintf("enumeration: %d undecodable patch files", nbad), Files: []File{{Name: "bad.json", State: StFile, Content: sim.Bytes(`{"not":"a patch"`), Note: "malformed"}}}
+			for i := 0; i < nbad; i++ {
+				s.Args = append(s.Args, Arg{File: 0, Spelling: i % 4})
+			}
+			out = append(out, s)
+		}
+		{
+			s := &Scen{Target: target, Stdin: sim.Bytes(chainDoc), Note: "enumeration: 256 applicable patch files"}
+			for i := 0; i < 256; i++ {
+				s.Files = append(s.Files, File{Name: fmt.Sprintf("c%d.json", i), State: StFile, Content: sim.Bytes(chainPatch(i)), Note: "valid"})
+				s.Args = append(s.Args, Arg{File: i})
+			}
+			out = append(out, s)
+		}
+		for _, in := range []string{"", " ", "null", "[]", "{", chainDoc[:10], "7", `"s"`, "\xef\xbb\xbf" + chainDoc, "\xef\xbb\xbf", "\xff\xfe{\x00}\x00", chainDoc + "\n" + chainDoc, chainDoc + " x", "\r\n" + chainDoc + "\r\n"} {
 			out = append(out, &Scen{Target: target, Stdin: sim.Bytes(in), Note: "enumeration: stdin variant", Files: []File{{Name: "p.json", State: StFile, Content: sim.Bytes(`[{"op":"add","path":"/a","value":1}]`), Note: "valid"}}, Args: []Arg{{File: 0}}})
 			out = append(out, &Scen{Target: target, Stdin: sim.Bytes(in), Note: "enumeration: stdin variant, no patches"})
 		}
@@ -550,6 +566,9 @@ func Gen(seed uint64) *Scen {
 		s.Stdin = sim.Bytes("")
 	default:
 		s.Stdin = sim.Bytes(g.Scalar())
+	}
+	if r.P(25) {
+		s.Stdin = append(sim.Bytes("\xef\xbb\xbf"), s.Stdin...)
 	}
 	if !chain && r.P(40) {
 		// a large document: beyond one pipe buffer (64 KiB) and beyond bufio defaults
@@ -858,7 +877,7 @@ func RunWorker(p sim.Params) *sim.Summary {
 		sum.Enum["fault_and_order_enumeration"]++
 	}
 	if done {
-		sum.Exhaustive = []string{fmt.Sprintf("every fault kind (%d) x every position in -p lists of length 1..3 with all other patches valid, every permutation of three chained and of three overwriting patches, no/duplicate/symlinked arguments, 8 stdin variants, stdin delivered in 1/2/n writes, a named pipe and a relative symlink in a sub-directory as patch file at every position, 4 path styles x 4 flag spellings - for both binaries (%d executions)", numFaultKinds, len(enum))}
+		sum.Exhaustive = []string{fmt.Sprintf("every fault kind (%d) x every position in -p lists of length 1..3 with all other patches valid, every permutation of three chained and of three overwriting patches, no/duplicate/symlinked arguments, 14 stdin variants (empty, other roots, torn, byte-order marks, trailing data), 255/256/257/512 patch arguments, stdin delivered in 1/2/n writes, a named pipe and a relative symlink in a sub-directory as patch file at every position, 4 path styles x 4 flag spellings - for both binaries (%d executions)", numFaultKinds, len(enum))}
 	}
 	// 2. seeded random scenarios
 	for i := int64(0); i < p.MaxRuns && time.Now().Before(p.Deadline); i++ {
